@@ -23,7 +23,11 @@ FactOf(e) ==
   ELSE IF e.k = "HookF" THEN <<"hook", e.s, IF e.h = "b" THEN -1 ELSE -2, "failed", MsgOf(e)>>
   ELSE <<"step", e.s, e.i,
          CASE e.k = "StepP" -> "passed" [] e.k = "StepSk" -> "skipped" [] OTHER -> "failed",
-         IF e.k = "StepF" /\ e.err = "panic" THEN MsgOf(e) ELSE "">>
+         IF e.k # "StepF" THEN ""
+         ELSE CASE e.err = "panic" -> MsgOf(e)
+                [] e.err = "ambig" -> "ambiguous"        \* the report must say WHY: ambiguous match,
+                [] e.err = "notfound" -> "notfound"      \* no matching definition,
+                [] OTHER -> "">>
 IsFact(e) == e.t = "ParseErr" \/ (IsSc(e) /\ e.k \in {"StepP", "StepSk", "StepF", "HookF"})
 ExpFacts(stream) == LET sel == SelectSeq(stream, IsFact) IN [i \in DOMAIN sel |-> FactOf(sel[i])]
 
